@@ -513,6 +513,31 @@ def rule_r3(ctx):
                 accepted = _eval_accepted(prog, ci, names, coll.attr)
             elif isinstance(coll, (ast.Tuple, ast.List, ast.Set)) and all(isinstance(e, ast.Constant) for e in coll.elts):
                 accepted = {e.value for e in coll.elts}
+            elif isinstance(coll, ast.Name):
+                # a module-level name: what is it bound to?  A STRING (", ".join(names), a help text)
+                # makes `name in X` a substring test: every piece of the text is accepted
+                defs = _single_assign(mi, coll.id)
+                if len(defs) == 1 and isinstance(defs[0], ast.Assign):
+                    v = defs[0].value
+                    is_text = (
+                        (isinstance(v, ast.Call) and isinstance(v.func, ast.Attribute) and v.func.attr in ("join", "format", "strip", "lower", "upper"))
+                        or isinstance(v, ast.JoinedStr) or (isinstance(v, ast.Constant) and isinstance(v.value, str))
+                        or (isinstance(v, ast.BinOp) and isinstance(v.op, (ast.Add, ast.Mod)) and any(isinstance(x, ast.Constant) and isinstance(x.value, str) for x in ast.walk(v)))
+                    )
+                    if is_text:
+                        rr.fail(
+                            "C16-R3|__main__|accepted-names|substring-test",
+                            f"{mi.rel}:{guard.lineno}: the option name is tested with `{how}`, where `{coll.id}` is TEXT (`{ast.unparse(v)[:60]}`): `in` on a string is a substring test, so every piece of that text - `unparse`, `wrapper`, `if`, the empty name - is accepted as an option name and silently ignored (exit 0, output written)",
+                            where=f"{mi.rel}:{guard.lineno}", what=what,
+                        )
+                        accepted = False
+                    elif isinstance(v, ast.Attribute):
+                        accepted = _eval_accepted(prog, ci, names, v.attr)
+                    elif isinstance(v, (ast.Tuple, ast.List, ast.Set)) and all(isinstance(e, ast.Constant) for e in v.elts):
+                        accepted = {e.value for e in v.elts}
+        if accepted is False:
+            rr.floor = 1
+            return rr
         if accepted is None:
             raise AnalysisError(f"C16-R3: cannot model the set of names accepted by `{how}`")
         if not neg:
